@@ -41,6 +41,18 @@ Theorem C16_store_map_visible : forall h order l k v h',
 Proof. exact store_map_visible. Qed.
 Print Assumptions C16_store_map_visible.
 
+(* Every instruction other than OpSetIndex only ALLOCATES: a step of the store
+   VM that does not fetch an OpSetIndex leaves every existing cell as it is
+   (heap_extends: the allocation pointer does not decrease and every cell below
+   the old pointer is unchanged).  So on bytecode without OpSetIndex no array
+   or map is ever mutated — the reason why Vm.v's value semantics is adequate
+   there (the agreement VmHeap ~ Vm on such bytecode itself is not proved; both
+   models are compared with the real VM on those programs). *)
+Theorem C16_step_allocates_only : forall p s s',
+  hvm_step p s = HRunning s' -> ~ fetches_setindex p s -> heap_extends (hheap s) (hheap s').
+Proof. exact hvm_step_allocates_only. Qed.
+Print Assumptions C16_step_allocates_only.
+
 (* the hypotheses are satisfiable, on a run: after `a := [1 2 3]`, `b := a` the
    store `b[-1] = 9` (negative index: normalizeIndex) succeeds on the cell both globals refer to *)
 Example C16_ex_store_visible :
